@@ -2,6 +2,7 @@ package main
 
 import (
 	"go/ast"
+	"go/token"
 	"go/types"
 )
 
@@ -19,6 +20,9 @@ type iterLoop struct {
 	Dir     string       // fwd | rev | map | odd
 	DirWhy  string
 	info    *types.Info
+	// for loops whose element index is derived from the loop variable
+	// (last := n-1-i; coll[last]): the object holding the derived index
+	idxAlias types.Object
 }
 
 // IsElem reports whether e denotes the current element of the loop.
@@ -27,7 +31,13 @@ func (l *iterLoop) IsElem(e ast.Expr) bool {
 	if l.Elem != nil && objOf(l.info, e) == l.Elem {
 		return true
 	}
-	if ix, ok := e.(*ast.IndexExpr); ok && l.Index != nil && objOf(l.info, ix.Index) == l.Index {
+	if ix, ok := e.(*ast.IndexExpr); ok && l.idxAlias != nil && objOf(l.info, ix.Index) == l.idxAlias {
+		if l.CollObj != nil {
+			return objOf(l.info, ix.X) == l.CollObj
+		}
+		return exprStr(ix.X) == exprStr(l.Coll)
+	}
+	if ix, ok := e.(*ast.IndexExpr); ok && l.Index != nil && l.idxAlias == nil && objOf(l.info, ix.Index) == l.Index {
 		if l.CollObj != nil {
 			return objOf(l.info, ix.X) == l.CollObj
 		}
@@ -40,6 +50,23 @@ func (l *iterLoop) IsElem(e ast.Expr) bool {
 func asIterLoop(info *types.Info, st ast.Stmt) *iterLoop {
 	switch s := st.(type) {
 	case *ast.RangeStmt:
+		// for i, v := range slices.Backward(x): a complete reverse traversal of x
+		if c, ok := unparen(s.X).(*ast.CallExpr); ok && isFunc(callee(info, c), "slices", "", "Backward") && len(c.Args) == 1 {
+			l := &iterLoop{Stmt: s, Body: s.Body, Coll: c.Args[0], CollObj: objOf(info, c.Args[0]), Dir: "rev", info: info}
+			if s.Key != nil {
+				l.Index = objOf(info, s.Key)
+			}
+			if s.Value != nil {
+				l.Elem = objOf(info, s.Value)
+			}
+			return l
+		}
+		// for i := range n (n an integer): an index loop 0..n-1
+		if tv, ok := info.Types[s.X]; ok && tv.Type != nil {
+			if b, isB := tv.Type.Underlying().(*types.Basic); isB && b.Info()&types.IsInteger != 0 {
+				return intRangeLoop(info, s)
+			}
+		}
 		l := &iterLoop{Stmt: s, Body: s.Body, Coll: s.X, CollObj: objOf(info, s.X), Dir: "fwd", info: info}
 		if s.Key != nil {
 			l.Index = objOf(info, s.Key)
@@ -114,4 +141,146 @@ func iterLoopsIn(info *types.Info, n ast.Node) []*iterLoop {
 		return true
 	})
 	return out
+}
+
+// intRangeLoop: `for i := range n` where n is len(coll) (directly or through a
+// local), and the body reads coll[i] (forward) or coll[n-1-i] (reverse), the
+// derived index possibly kept in a local (`last := n - 1 - i`).
+func intRangeLoop(info *types.Info, s *ast.RangeStmt) *iterLoop {
+	if s.Key == nil {
+		return nil
+	}
+	iObj := objOf(info, s.Key)
+	if iObj == nil {
+		return nil
+	}
+	// the enclosing function body is not at hand: resolve locals within the loop's
+	// surroundings by looking at the statement that defines n, found through its object
+	nExpr := unparen(s.X)
+	lenOf := func(e ast.Expr) ast.Expr { // len(x) -> x
+		c, ok := unparen(e).(*ast.CallExpr)
+		if !ok || len(c.Args) != 1 {
+			return nil
+		}
+		if id, ok := unparen(c.Fun).(*ast.Ident); ok && id.Name == "len" {
+			return c.Args[0]
+		}
+		return nil
+	}
+	l := &iterLoop{Stmt: s, Body: s.Body, Index: iObj, info: info, Dir: "odd", DirWhy: "element index not recognised"}
+	// candidates for the collection: any X[idx] in the body whose idx is i, or n-1-i, or a local defined as n-1-i
+	isRevExpr := func(e ast.Expr) bool {
+		// n - 1 - i  |  len(x) - 1 - i  |  n - i - 1
+		be, ok := unparen(e).(*ast.BinaryExpr)
+		if !ok || be.Op != token.SUB {
+			return false
+		}
+		parts := []ast.Expr{be.Y}
+		if inner, ok := unparen(be.X).(*ast.BinaryExpr); ok && inner.Op == token.SUB {
+			parts = append(parts, inner.Y)
+			base := unparen(inner.X)
+			if exprStr(base) != exprStr(nExpr) {
+				return false
+			}
+		} else {
+			return false
+		}
+		one, idx := false, false
+		for _, p := range parts {
+			if v, ok := constInt(info, p); ok && v == 1 {
+				one = true
+			}
+			if objOf(info, p) == iObj {
+				idx = true
+			}
+		}
+		return one && idx
+	}
+	for _, bs := range s.Body.List {
+		if as, ok := bs.(*ast.AssignStmt); ok && len(as.Lhs) == 1 && len(as.Rhs) == 1 && as.Tok == token.DEFINE {
+			if isRevExpr(as.Rhs[0]) {
+				l.idxAlias = objOf(info, as.Lhs[0])
+			}
+		}
+	}
+	ast.Inspect(s.Body, func(n ast.Node) bool {
+		if l.Coll != nil {
+			return false
+		}
+		ix, ok := n.(*ast.IndexExpr)
+		if !ok {
+			return true
+		}
+		switch {
+		case objOf(info, ix.Index) == iObj:
+			l.Coll, l.Dir, l.DirWhy = ix.X, "fwd", ""
+		case l.idxAlias != nil && objOf(info, ix.Index) == l.idxAlias:
+			l.Coll, l.Dir, l.DirWhy = ix.X, "rev", ""
+		case isRevExpr(ix.Index):
+			l.Coll, l.Dir, l.DirWhy = ix.X, "rev", ""
+		}
+		return true
+	})
+	if l.Coll == nil {
+		return nil
+	}
+	l.CollObj = objOf(info, l.Coll)
+	// n must be the length of the collection: len(coll) directly, or a local defined as len(coll)
+	okLen := false
+	if x := lenOf(nExpr); x != nil && exprStr(x) == exprStr(l.Coll) {
+		okLen = true
+	}
+	if o := objOf(info, nExpr); o != nil && !okLen {
+		okLen = lenDefinedAs(info, o, l.Coll) // n := len(coll), assigned once
+	}
+	if !okLen {
+		l.Dir, l.DirWhy = "odd", "the loop bound is not the length of the collection"
+	}
+	for _, bs := range s.Body.List {
+		if a2, ok := bs.(*ast.AssignStmt); ok && len(a2.Lhs) == 1 && len(a2.Rhs) == 1 {
+			if l.IsElem(a2.Rhs[0]) {
+				l.Elem = objOf(info, a2.Lhs[0])
+				break
+			}
+		}
+	}
+	return l
+}
+
+// lenDefs caches, per types.Info, the variables defined as len(x): object -> x.
+var lenDefs = map[*types.Info]map[types.Object]ast.Expr{}
+
+func lenDefinedAs(info *types.Info, o types.Object, coll ast.Expr) bool {
+	x, ok := lenDefs[info][o]
+	return ok && exprStr(x) == exprStr(coll)
+}
+
+// recordLenDefs scans a file set of syntax trees for `n := len(x)` definitions.
+func recordLenDefs(info *types.Info, files []*ast.File) {
+	m := map[types.Object]ast.Expr{}
+	for _, f := range files {
+		ast.Inspect(f, func(n ast.Node) bool {
+			as, ok := n.(*ast.AssignStmt)
+			if !ok || len(as.Lhs) != len(as.Rhs) {
+				return true
+			}
+			for i, l := range as.Lhs {
+				c, ok := unparen(as.Rhs[i]).(*ast.CallExpr)
+				if !ok || len(c.Args) != 1 {
+					continue
+				}
+				if id, ok := unparen(c.Fun).(*ast.Ident); ok && id.Name == "len" {
+					if o := objOf(info, l); o != nil {
+						if _, dup := m[o]; dup {
+							m[o] = nil // assigned twice: not a stable length
+						} else {
+							m[o] = c.Args[0]
+						}
+					}
+				}
+			}
+			return true
+		})
+	}
+	lenDefs[info] = m
 }
